@@ -118,6 +118,15 @@ class Ctx:
         cmd = ["go", "build", "-o", out]
         if tags:
             cmd += ["-tags", tags]
+        if REPO != "/repo":
+            # mutant / scratch-copy runs: same harness sources, thriftgo replaced by the copy
+            mf = self.path("harness-mod", "go.mod")
+            with open(os.path.join(hdir, "go.mod")) as fh:
+                gm = fh.read().replace("=> /repo", "=> " + REPO)
+            with open(mf, "w") as fh:
+                fh.write(gm)
+            shutil.copy(os.path.join(hdir, "go.sum"), self.path("harness-mod", "go.sum"))
+            cmd += ["-modfile", mf]
         cmd.append("./cmd/" + cmd_name)
         p = self.run(cmd, cwd=hdir, timeout=900, check=False)
         if p.returncode != 0:
